@@ -174,3 +174,53 @@ theorem Inv.restart {P : Program} {s s' : St}
   · intro h; rw [h9, ht] at h; cases h
 
 end LLBuild.Engine
+
+namespace LLBuild.Engine
+
+/-- the state a new process finds after the engine process died: memory is gone, the database is
+what the last commit left -/
+def crashState (s : St) : St :=
+  { env := s.env, epoch := s.cdbIter, mem := s.cdb, db := s.cdb, dbIter := s.cdbIter,
+    cdb := s.cdb, cdbIter := s.cdbIter }
+
+/-- the committed snapshot is always a good place to restart from -/
+def InvC (P : Program) (s : St) : Prop := Inv P (crashState s)
+
+/-- committing the build's transaction: the database as it is now (with the epoch already written,
+nothing pending) is a good place to restart from -/
+theorem Inv.commit {P : Program} {s s' : St}
+    (h1 : s'.env = s.env) (h2 : s'.epoch = s.dbIter) (h3 : s'.mem = s.db)
+    (h4 : s'.db = s.db) (h5 : s'.dbIter = s.dbIter) (h6 : s'.status = fun _ => .idle)
+    (h8 : s'.pending = []) (h9 : s'.target = none) (h10 : s'.started = false)
+    (hit : s.dbIter = s.epoch) (hpe : s.pending = [])
+    (hi : Inv P s) : Inv P s' := by
+  have hnf' : ∀ x, inflight s' x = false := by intro x; simp [inflight, h6]
+  have hna : ¬ active s' := by simp [active, h10]
+  constructor
+  · rw [h3, h2, hit]; exact hi.dbE
+  · rw [h4, h2, hit]; exact hi.dbE
+  · rw [h5, h2]; exact Nat.le_refl _
+  · intro _; rw [h5, h2]
+  · intro _; exact h8
+  · intro h; rw [h10] at h; cases h
+  · intro h; rw [h10] at h; cases h
+  · intro h; rw [h9] at h; cases h
+  · intro _ x; rw [h6]
+  · intro x hx; rw [h6] at hx; cases hx
+  · intro h; exact absurd h hna
+  · intro h; exact absurd h hna
+  · intro x hx; rw [h6] at hx; cases hx
+  · intro x hb _; rw [h3] at hb; rw [h3, h8, ← hpe]; exact hi.dbGood x hb
+  · intro x hb; rw [h4] at hb; rw [h4, h8, ← hpe]; exact hi.dbGood x hb
+  · intro x hb; rw [h4] at hb; rw [h4, h3, h8, ← hpe]
+    obtain ⟨_, f⟩ := hi.dbGood x hb
+    exact ⟨f.seq, f.disc⟩
+  · intro x hb _; rw [h3] at hb; rw [h3, h4]; exact ⟨hb, rfl, rfl, rfl, rfl, rfl, Nat.le_refl _⟩
+  · intro x hx; rw [h6] at hx; cases hx
+  · intro d v hd; rw [h8] at hd; cases hd
+  · intro x hfl; rw [hnf'] at hfl; cases hfl
+  · intro x hfl; rw [hnf'] at hfl; cases hfl
+  · intro x hx; rw [h6] at hx; cases hx
+  · intro h; rw [h9] at h; cases h
+
+end LLBuild.Engine
